@@ -21,11 +21,14 @@ pub enum SerdeE {
 }
 
 #[derive(Debug, Clone, Copy, PartialEq, Default, strum::AsRefStr, strum::EnumString)]
+#[allow(non_camel_case_types)]
 pub enum StrE {
     #[default]
     Alpha,
     Beta,
     Gamma,
+    /// differs from `Alpha` only in ASCII case
+    alpha,
 }
 
 /// behaviour of one generated callback in the current case
